@@ -151,7 +151,7 @@ def _value(rng, kind, nodes, class_nodes=None):
     if kind == "int":
         return lit(str(rng.randrange(-15, 100)), XSD + "integer")      # negative values too
     if kind == "lang":
-        return lit("w%d" % rng.randrange(40), None, rng.choice(["en", "es"]))
+        return lit("w%d" % rng.randrange(40), None, rng.choice(["en", "es", "en", "es", "en-GB", "es-419", "de-CH-1996"]))
     if kind == "date":
         return lit("2020-01-0%d" % rng.randrange(1, 9), XSD + "date")
     if kind == "iri":   # an IRI that is not an instance of anything
